@@ -93,7 +93,9 @@ func (pv *ResponseBatchItem) TagDecodeTTLV(d *ttlv.Decoder, tag int) error {
 		}
 		if pv.Operation > 0 && d.Tag() == TagResponsePayload {
 			pv.ResponsePayload = newResponsePayload(pv.Operation)
-			return d.TagAny(TagResponsePayload, &pv.ResponsePayload)
+			if err := d.TagAny(TagResponsePayload, &pv.ResponsePayload); err != nil {
+				return err
+			}
 		}
 		return d.Opt(TagMessageExtension, &pv.MessageExtension)
 	})
